@@ -22,7 +22,7 @@ Per run (this file):
   5. tests against the state-vector backend (stabilisers stabilise the state vector; sampled
      outcomes have non-zero Born probability), stim engine, tableau -> circuit (AG04 / BM20).
 """
-STATIC = ["C12/Props"]
+STATIC = ["C12/Props", "C12/PropsRecord"]
 
 import ast
 import math
@@ -2029,6 +2029,10 @@ def main(run):
     timed("shots", sec_shots, run, rng)
     timed("stim", sec_stim, run, rng)
     timed("to_circuit", sec_to_circuit, run, rng)
+    # extension streams (history / non-mutation / accessor purity / measurement orders / special angles / channels);
+    # own generator so that the streams above are unchanged
+    from harness import c12_hist
+    c12_hist.main_sections(run, random.Random(run.seed * 7919 + 12), timed)
     run.notes["section_wall_s"] = walls
     run.notes.pop("reported_keys", None)
     run.axioms.discard("Axioms")
@@ -2145,6 +2149,8 @@ def replay(run, data):
         sec_reject(run, random.Random(data.get("seed", 0)))
     elif kind == "to_circuit":
         sec_to_circuit(run, random.Random(data.get("seed", 0)))
+    elif __import__("harness.c12_hist", fromlist=["replay"]).replay(run, data):
+        pass
     else:
         return main(run)
     run.findings = [f for f in run.findings if f.key == key] or run.findings
